@@ -35,3 +35,12 @@ Definition check_split (c : raw * nat * Q * list (list bool) * list Q * list (li
   all2 closeQ (map (rw s) (seq 0 n)) w' &&
   all2 (fun a W => all2 (all2 closeQ) (map (fun i => map (rattr s a i) (seq 0 n)) (seq 0 n)) W)
        (seq 0 (length attrs')) attrs'.
+
+(* permuted_copy: adjacency and weights of the result *)
+Definition check_permute (c : raw * list nat * list (list bool) * list Q) : bool :=
+  let '(r, p, A', w') := c in
+  let s := permute r p in
+  let n := rn s in
+  Nat.eqb n (length A') &&
+  all2 eqbl (map (fun i => map (ra s i) (seq 0 n)) (seq 0 n)) A' &&
+  all2 closeQ (map (rw s) (seq 0 n)) w'.
